@@ -79,7 +79,7 @@ func replayOther(res *Result, rf replayFile, text string) {
 	case "implicit_column_name":
 		_, _, sql, cerr := pc.totalityChecks(text)
 		alias, _ := extra["alias"].(string)
-		if cerr == nil && !strings.Contains(sql, alias) {
+		if cerr == nil && !strings.Contains(viaJSON(sql), alias) {
 			res.violate(Violation{Property: "C10", Kind: v.Kind, Reason: "alias " + alias + " not in the output"})
 		}
 	case "error_position":
@@ -112,7 +112,7 @@ func replayOther(res *Result, rf replayFile, text string) {
 			}
 		}
 		guarded(text, "Compile", func() { sql, cerr = opts.Compile(text) })
-		if obs, _ := v.Observed.(string); cerr == nil && sql == obs {
+		if obs, _ := v.Observed.(string); cerr == nil && viaJSON(sql) == obs { // obs went through JSON: compare like with like
 			res.violate(Violation{Property: rf.Property, Kind: v.Kind, Reason: "still compiles to the rejected SQL: " + sql})
 		}
 	case "output_not_lexable":
@@ -213,6 +213,12 @@ func replayOther(res *Result, rf replayFile, text string) {
 		cc := &c04checker{res: res, base: map[string]skel{}}
 		tmpl, _ := extra["template"].(string)
 		content, _ := extra["content"].(string)
+		if cb, ok := extra["content_b64"].(string); ok {
+			// contents with bytes that are not UTF-8 do not survive JSON as text
+			if raw, err := base64Decode(cb); err == nil {
+				content = raw
+			}
+		}
 		asName, _ := extra["as_name"].(bool)
 		if tmpl == "" {
 			fatal("replay file lacks the template")
@@ -235,6 +241,14 @@ func replayOther(res *Result, rf replayFile, text string) {
 	default:
 		fatal("no replay procedure for", rf.Property, v.Kind)
 	}
+}
+
+// viaJSON is what a string looks like after it was stored in a replay file (bytes that are not UTF-8 are replaced).
+func viaJSON(s string) string {
+	b, _ := json.Marshal(s)
+	var out string
+	json.Unmarshal(b, &out)
+	return out
 }
 
 func roundTrip(x any) any {
